@@ -25,7 +25,7 @@ struct Options {
   std::vector<int> choices;         // replay / DFS prefix: index into the runnable list at each real choice
   uint64_t max_steps = 2000000;     // livelock guard
   uint64_t step_ns = 50;            // virtual nanoseconds per scheduling point
-  bool spurious_futex = false;      // inject spurious futex_wait returns
+  bool spurious_futex = false;      // futex_wait may return without a wake: EINTR (signal) or a spurious 0
   bool record_sites = false;
 };
 
